@@ -137,7 +137,7 @@ PROPS['C09'] = {
 
 PROPS['C20'] = {
     'level': 'other',
-    'units': ['C20/orf', 'C20/finder', 'C20/alphabet', 'C19/qgrams'],
+    'units': ['C20/orf', 'C20/finder', 'C20/alphabet', 'C20/revcomp', 'C19/qgrams'],
     'kani': [
         {'name': 'dna_complement', 'crate': 'alphabets', 'harness': 'dna_complement_all_bytes', 'timeout': 1200, 'obligation': 'dna::complement: involution, case preserving, identity outside the IUPAC table, lower-case twin, Watson-Crick pairs; all 256 bytes'},
         {'name': 'rna_complement', 'crate': 'alphabets', 'harness': 'rna_complement_all_bytes', 'timeout': 1200, 'obligation': 'rna::complement: the same over the RNA table'},
@@ -145,8 +145,8 @@ PROPS['C20'] = {
     'oracle': 'C20',
     'decided': ['ORF finder (Verus, unbounded; State::new, Finder::find_all, Matches::next on the real code): define a reportable frame declaratively (starts with a configured start codon, ends with an in-frame stop codon, no in-frame stop codon in between, length a multiple of three and more than min_len + 2, offset = start mod 3); find_all leaves exactly the reportable frames of the sequence to report; every next() returns the least (end, start) frame still to report and removes exactly that one; None is returned only when nothing is left - hence every reportable frame is reported exactly once, in order, and nothing else is (pending-start lists characterised per frame: sound, ascending, complete; queue sound/complete for the frames ending at the current position)',
                 'RankTransform::new / get (unit shared with C19): the rank transform is an order-preserving bijection onto 0..|A| (rank r goes to the r-th smallest symbol)', 'dna::complement and rna::complement (through the real lazy_static tables): involution on all 256 bytes, case preserved, bytes outside the IUPAC table unchanged, lower-case entries mirror upper-case ones (complete over the byte domain)'],
-    'decided_extra': ['Alphabet::{new, insert, is_word, len, is_empty} (unit C20/alphabet, rules R46/R47, BitSet stubbed as a membership predicate): new collects exactly the symbols of its argument; is_word accepts a text exactly when all its symbols are members', 'Finder::new (unit C20/finder, rules R44/R45 for the nested iter().map(..).collect() chains): the finder stores exactly the given start and stop codons, three symbols each, and the minimum length - the well-formedness find_all / next require'],
-    'undecided': ['the identification of the Finder of unit C20/finder (whose constructor is proved to establish wf()) with the Finder of unit C20/orf (same struct, same wf definition; two units because the proof of next is sensitive to its context)', 'Alphabet::{max_symbol, intersection, difference, union} (iterator adapters of bit_set)', 'gc_content (f32)', 'revcomp iterator chain (rev/map/collect: std adapter semantics)'],
+    'decided_extra': ['dna::revcomp and rna::revcomp (unit C20/revcomp, rule R48): the result is the complement table applied to the reversed sequence; lemma_revcomp_twice: reverse-complementing twice restores any sequence given that the table is an involution - which the complete Kani harnesses of this check prove of both real tables', 'Alphabet::{new, insert, is_word, len, is_empty} (unit C20/alphabet, rules R46/R47, BitSet stubbed as a membership predicate): new collects exactly the symbols of its argument; is_word accepts a text exactly when all its symbols are members', 'Finder::new (unit C20/finder, rules R44/R45 for the nested iter().map(..).collect() chains): the finder stores exactly the given start and stop codons, three symbols each, and the minimum length - the well-formedness find_all / next require'],
+    'undecided': ['the identification of the Finder of unit C20/finder (whose constructor is proved to establish wf()) with the Finder of unit C20/orf (same struct, same wf definition; two units because the proof of next is sensitive to its context)', 'Alphabet::{max_symbol, intersection, difference, union} (iterator adapters of bit_set)', 'gc_content (f32)', 'the composition of the Verus lemma (revcomp twice == identity GIVEN an involutive table) with the Kani proofs (the real tables are involutions) is by reading: two tools'],
     'trusted': ['Kani/CBMC', 'std specs used by the ORF unit: VecDeque::{is_empty} + vstd VecDeque model, [T]::contains over an uninterpreted element equality with ONE ADMITTED AXIOM equating it with sequence equality for VecDeque<u8>, Enumerate<slice::Iter> model and the enumerate_slice stub (generic sequence iterator instantiated at &[u8])'],
     'level_text': 'Verus proves the ORF finder reports exactly the frames of the declarative definition, each once and in order, for all inputs; complete Kani proofs over the whole byte domain for the two complement tables; rank transform proved (shared unit); alphabet membership and GC content are not decided by contracts.',
     'level_note': 'Level other (partial). Trusted: Kani 0.68/CBMC 6.11.',
